@@ -602,6 +602,8 @@ func runC05(r *mon.Run, replay string) {
 	if st, ok := replayStream(replay); ok {
 		if st >= 59000 {
 			runC05Concurrent(r, st)
+		} else if st >= 58500 {
+			runC05Resubmit(r, st)
 		} else if st >= 58000 {
 			runC05PoolFull(r, st)
 		} else {
@@ -612,6 +614,8 @@ func runC05(r *mon.Run, replay string) {
 	parallel(r.Pick(300, 5000), func(i int) { runC05History(r, uint64(50000+i)) })
 	parallel(r.Pick(24, 300), func(i int) { runC05Concurrent(r, uint64(59000+i)) })
 	parallel(r.Pick(2, 24), func(i int) { runC05PoolFull(r, uint64(58000+i)) })
+	parallel(r.Pick(3, 30), func(i int) { runC05Resubmit(r, uint64(58500+i)) })
+	r.Floor("resubmit_histories_past_the_limit_if_recharged", 1)
 	r.Floor("poolfull_evictions_observed", 1)
 	r.Floor("pool_audits", 1000)
 	r.Floor("blocks_mined_from_pool", 50)
@@ -624,6 +628,114 @@ func runC05(r *mon.Run, replay string) {
 // differently priced transactions: what remains must still be a valid
 // continuation, stay below the limit, and only cheaper transactions may have
 // been evicted.
+// runC05Resubmit: a large pooled transaction is submitted again and again as
+// part of sets that also contain a new small transaction. The pool stays far
+// below its limit, so nothing may ever be evicted.
+func runC05Resubmit(r *mon.Run, stream uint64) {
+	rng := r.RNG(stream)
+	p := chainlab.RandomParams("v2only", rng)
+	env := chainlab.NewEnv(p)
+	t := chainlab.NewTree(env, rng)
+	tip := t.Root
+	for i := 0; i < 6; i++ {
+		tip = t.ExtendEmpty(tip, zeroT)
+	}
+	node, err := chainlab.NewTestNode(env, nil)
+	if err != nil {
+		r.Inconclusive(err.Error())
+		return
+	}
+	cm := node.CM
+	if err := cm.AddBlocks(chainlab.Blocks(tip.PathFromGenesis())); err != nil {
+		r.Inconclusive(err.Error())
+		return
+	}
+	cs := c05Case{Stream: stream, Params: p}
+	maxW := tip.L.State.MaxBlockWeight() * 10
+	b := tip.L.NewBuilder(rng)
+	b.EphFloor = 1 << 30
+	if !b.V2Spend(env.A(chainlab.Alice), 0) || len(b.V2Txns) == 0 {
+		return
+	}
+	big := b.V2Txns[len(b.V2Txns)-1].DeepCopy()
+	big.ArbitraryData = make([]byte, 1_200_000+rng.IntN(600_000))
+	big.ArbitraryData[0] = byte(stream)
+	b.ResignV2(&big)
+	bigW := tip.L.State.V2TransactionWeight(big)
+	if _, err := cm.AddV2PoolTransactions(tip.L.State.Index, []types.V2Transaction{big}); err != nil {
+		r.Count("resubmit_setup_rejected", 1)
+		return
+	}
+	accepted := map[types.TransactionID]bool{big.ID(): true}
+	charged := bigW
+	rounds := int(2*maxW/bigW) + 4
+	for i := 0; i < rounds; i++ {
+		pool := snapPool(cm)
+		pb, ok := tip.L.PoolBuilder(rng, pool.v1, pool.v2)
+		if !ok {
+			r.Violation("pool-not-valid-continuation:resubmit", "the pool is not a valid continuation of the tip", cs, nil)
+			return
+		}
+		m1, m2 := len(pb.Txns), len(pb.V2Txns)
+		// a set has to contain its own unconfirmed parents: the newcomer spends
+		// confirmed outputs (or outputs of the big transaction, which is in the set)
+		pb.EphFloor = 1 << 30
+		for _, a := range env.Actors {
+			if pb.V2Spend(a, 0) {
+				break
+			}
+		}
+		_, fresh := pb.TakeNew(&m1, &m2)
+		if len(fresh) == 0 {
+			continue
+		}
+		set := append([]types.V2Transaction{big.DeepCopy()}, fresh...)
+		dep := false
+		made := map[types.Hash256]bool{}
+		for _, c := range chainlab.V2Creates(big) {
+			made[c] = true
+		}
+		for _, x := range fresh {
+			for _, q := range chainlab.V2Parents(x) {
+				dep = dep || made[q]
+			}
+		}
+		if !dep && rng.IntN(2) == 0 {
+			set = append(fresh, big.DeepCopy()) // independent of each other: either order is valid
+		}
+		if _, err := cm.AddV2PoolTransactions(tip.L.State.Index, set); err != nil {
+			r.Count("resubmit_sets_rejected", 1)
+			if debugOn {
+				fmt.Println("DEBUG resubmit reject:", err)
+			}
+			continue
+		}
+		charged += bigW
+		for _, x := range fresh {
+			accepted[x.ID()] = true
+		}
+		r.Count("resubmissions_of_pooled_transaction", 1)
+		after := snapPool(cm)
+		var total uint64
+		for _, x := range after.v2 {
+			total += tip.L.State.V2TransactionWeight(x)
+		}
+		for id := range accepted {
+			if _, in := after.ids[id]; !in {
+				c := cs
+				c.Txn = id.String()
+				r.Violation("eviction-without-full-pool:resubmission", fmt.Sprintf("an accepted transaction disappeared after %d resubmissions of a pooled %d-weight transaction although the pool weighs %d of %d", i+1, bigW, total, maxW), c, nil)
+				return
+			}
+		}
+	}
+	if charged >= maxW {
+		r.Count("resubmit_histories_past_the_limit_if_recharged", 1)
+	}
+	r.Eval()
+	r.Distinct(fmt.Sprintf("resubmit/%d/%d", stream, rounds))
+}
+
 func runC05PoolFull(r *mon.Run, stream uint64) {
 	rng := r.RNG(stream)
 	p := chainlab.RandomParams("v2only", rng)
@@ -650,6 +762,7 @@ func runC05PoolFull(r *mon.Run, stream uint64) {
 	}
 	var subs []sub
 	prev := map[types.TransactionID]bool{}
+	var prevWeight uint64
 	b := tip.L.NewBuilder(rng)
 	b.EphFloor = 1 << 30 // confirmed inputs only: the transactions must be independent
 	maxW := tip.L.State.MaxBlockWeight() * 10
@@ -727,6 +840,11 @@ func runC05PoolFull(r *mon.Run, stream uint64) {
 		for id := range pool.ids {
 			prev[id] = true
 		}
+		if gone > 0 && prevWeight+w < maxW {
+			r.Violation("eviction-without-full-pool", fmt.Sprintf("%d transactions were evicted although the pool (%d) plus the newcomer (%d) weigh less than ten block weights (%d)", gone, prevWeight, w, maxW), cs, nil)
+			return
+		}
+		prevWeight = total
 		if gone > 0 {
 			r.Count("poolfull_evictions_observed", 1)
 			r.Count("poolfull_transactions_evicted", gone)
